@@ -23,7 +23,10 @@
 (*   basis  relation of the renter's chain to the host's: same tip, renter *)
 (*          behind, renter on a stale fork the host has seen (fork) or     *)
 (*          has not (forkx)                                                *)
-(*   inp    renter inputs confirmed | unconfirmed with a parent            *)
+(*   inp    renter inputs confirmed (conf) | unconfirmed with a parent     *)
+(*          transaction that the host does not have confirmed either       *)
+(*          (unconf) | unconfirmed for the renter, but the blocks the      *)
+(*          renter lacks confirmed the parent on the host's chain (unconfc)*)
 (*   fault  none | dial | cutBk / cutAk (message k cut: the sender's write *)
 (*          fails / succeeds but the message is lost) | mK<what> (message  *)
 (*          K corrupted) | bcast (the host's broadcast fails)              *)
@@ -77,6 +80,7 @@ EarlyFaults == {"none", "dial", "cutB1", "cutA1", "cutB2", "cutA2", "m1basis", "
 
 Descs == {x \in [kind : Kinds, pv : PVs, basis : Bases, inp : Inps, fault : Faults] :
             /\ PVApplies(x.kind, x.pv)
+            /\ (x.inp = "unconfc" => x.basis # "same")   \* needs blocks the renter has not seen
             /\ (x.pv # "ok" => x.fault \in EarlyFaults)}
 NoDesc == [kind |-> "-", pv |-> "-", basis |-> "-", inp |-> "-", fault |-> "-"]
 
@@ -86,13 +90,16 @@ CutA(k) == d.fault = "cutA" \o ToString(k)
 \* the host rebases the renter inputs (and only them) from the renter's basis to its own; an
 \* unconfirmed (ephemeral) input has no proof and is carried across unchanged, its parent
 \* transaction comes along in the request and is put into the host's pool before the final set
+\* -- unless the host's chain has confirmed it already ("unconfc"): then the host drops it, the
+\* input gets its proof from the confirming block, and the final set is the contract transaction
+\* alone (shorter than the renter's own set; the renter must accept that)
 RebaseFails == \/ d.basis = "forkx"                       \* it never saw the renter's fork
                \/ d.fault = "m1basis"                     \* unknown basis
                \/ (d.basis # "same" /\ d.inp = "conf" /\ d.fault = "m1value")  \* element invalid at the claimed basis
 \* the pool rejects the final set when a renter signature does not cover the host's transaction
 \* or an input misstates the output it spends
 PoolFails   == \/ d.fault \in {"m2id", "m3pol"}
-               \/ (d.fault = "m1value" /\ (d.basis = "same" \/ d.inp = "unconf"))
+               \/ (d.fault = "m1value" /\ (d.basis = "same" \/ d.inp # "conf"))
 \* the renter notices a corrupted final message
 M4Detected  == \/ d.fault \in {"m4empty", "m4sig"}
                \/ (d.fault = "m4txn" /\ (d.kind = "form" \/ ~DevNoIdCheck))
